@@ -110,7 +110,9 @@ def _stmt(rng, allow_include, names, budget):
             'alias': 'al%d' % rng.randint(0, 3) if form.endswith('_as') else None}
   if allow_include and budget[0] > 0:
     budget[0] -= 1
-    name = '/vfs/inc%d.gin' % len(names)
+    # (file names may contain characters that are special to str.format)
+    name = rng.choice(['/vfs/inc%d.gin', '/vfs/inc%d.gin', '/vfs/sweep_{seed}_%d.gin',
+                       '/vfs/run_{}_%d.gin']) % len(names)
     names.append(name)
     return {'k': 'include', 'file': name}
   return {'k': 'bind', 'scope': '', 'sel': 'f0', 'param': 'a', 'val': _val(rng)}
